@@ -2,8 +2,11 @@
 and monitor: harness/exec_props.py (monitor family 7 of Exec/ExecTrace.v)."""
 from harness import exec_props as X
 
-BIAS = {}
-TINY = None
+BIAS = {"cancel_p": 0.15, "profiles": ["timeout", "hw", "mixed", "failing"]}
+TINY = {"cfgs": [{"throttle": 0, "attempts": 1, "dry": False}, {"throttle": 1, "attempts": 1, "dry": False}],
+        "depth_quick": 3, "depth_thorough": 4, "graphs_quick": 3,
+        "enum": {"cancel": True, "kinds": ["absent", "RUNNING", "FINISHED", "TIMEDOUT", "HWFAILURE", "CANCELLED"]},
+        "limit_quick": 1500, "limit_thorough": 15000}
 
 
 def run(ck):
